@@ -50,8 +50,17 @@ func runC02(c *mon.Ctx) {
 		storeSize := []int{0, 1, 1, 2, 3}[r.IntN(5)]
 		var store []*sim.Cert
 		perm := r.Perm(len(keyNames))
+		// the certificates' key-usage profile (encipherment only, none, CA-style, ...) is no part of XML-DSig trust
+		profile := 0
+		if r.IntN(3) == 0 {
+			profile = 1 + r.IntN(5)
+		}
 		for i := 0; i < storeSize; i++ {
-			store = append(store, certFor(keyNames[perm[i]], 10))
+			p := 0
+			if i == 0 || r.IntN(2) == 0 {
+				p = profile
+			}
+			store = append(store, sim.MintUsage(sim.K(keyNames[perm[i]]), "verif-"+keyNames[perm[i]], nb, na, 10, p))
 		}
 		var signCert *sim.Cert // certificate embedded / implied
 		var signKey *sim.Key
@@ -262,7 +271,7 @@ func runC02(c *mon.Ctx) {
 			}
 			doc = sim.DocString(d)
 		}
-		cs.Desc("kind=%s signer=%s clock=%s tamper=%s store=%d inStore=%v spec=%s dsOnRoot=%v nsCharRef=%v", kind, sg, clk.name, tamper, storeSize, inStore, spec, spec.NoNSDecl, spec.NSCharRef)
+		cs.Desc("kind=%s signer=%s clock=%s tamper=%s store=%d inStore=%v spec=%s dsOnRoot=%v nsCharRef=%v usage=%d", kind, sg, clk.name, tamper, storeSize, inStore, spec, spec.NoNSDecl, spec.NSCharRef, profile)
 		cs.Input([]byte(doc))
 		sp, spy, _ := NewSP(now, store...)
 		spy.WantStacks = true
